@@ -78,155 +78,139 @@ structure ClaimOut where
 /-- `Time.Add(time.Second * time.Duration(d))` with the wrapping int64 multiplication -/
 def addSeconds (t : Int) (d : Int) : Int := t + wrapI64 (nsPerSec * d)
 
+def findStream (x : SB) (r s : Addr) (e : Err) : M Stream :=
+  match AL.find? x.str.streams (r, s) with
+  | some st => .ok st
+  | none => .error e
+
+def setStream (x : SB) (r s : Addr) (st : Stream) : StreamState :=
+  { x.str with streams := AL.insert x.str.streams (r, s) st }
+
+/-- `SendCoinsFromModuleToModule(stream, fee_collector, …)` when the fee is positive -/
+def payFee (b : Bank) (nowSec : Int) (denom : String) (fee : Int) : M Bank :=
+  if fee > 0 then b.sendCoins nowSec Mstr Mfee [{ denom := denom, amt := fee }] else .ok b
+
+/-- `SendCoinsFromModuleToAccount(stream, to, …)` when the amount is positive (blocked recipients refused) -/
+def payOut (b : Bank) (nowSec : Int) (blocked : Addr → Bool) (to : Addr) (denom : String) (amt : Int) : M Bank :=
+  if amt > 0 then do
+    require (!blocked to) eUnauthorized
+    b.sendCoins nowSec Mstr to [{ denom := denom, amt := amt }]
+  else .ok b
+
 /-- `ClaimFromStream` -/
 def claimFromStream (x : SB) (now : Int) (blocked : Addr → Bool) (r s : Addr) : M (SB × ClaimOut) := do
-  let nowSec := now / nsPerSec
-  match AL.find? x.str.streams (r, s) with
-  | none => throw eStrInvalidData
-  | some st =>
-    if st.deposit ≤ 0 then throw eStrInvalidData
-    let (claimTotal, remaining) := calcAmountToClaim now st.zero st.last st.deposit st.rate
-    if claimTotal < 0 then throw eStrInvalidData
-    if st.deposit < claimTotal then throw eStrInvalidData
-    let (receiverAmount, valFee) ← calcValidatorFee x.str.fee claimTotal
-    let mut bank := x.bank
-    if valFee > 0 then
-      bank ← bank.sendCoins nowSec Mstr Mfee [{ denom := st.denom, amt := valFee }]
-    if receiverAmount > 0 then
-      if blocked r then throw eUnauthorized
-      bank ← bank.sendCoins nowSec Mstr r [{ denom := st.denom, amt := receiverAmount }]
-    let st' := { st with deposit := remaining, last := now }
-    pure ({ str := { x.str with streams := AL.insert x.str.streams (r, s) st' }, bank := bank },
-          { pay := receiverAmount, fee := valFee, total := claimTotal, rem := remaining })
+  let st ← findStream x r s eStrInvalidData
+  require (0 < st.deposit) eStrInvalidData
+  let c := calcAmountToClaim now st.zero st.last st.deposit st.rate
+  require (0 ≤ c.1) eStrInvalidData
+  require (c.1 ≤ st.deposit) eStrInvalidData
+  let f ← calcValidatorFee x.str.fee c.1
+  let bank1 ← payFee x.bank (now / nsPerSec) st.denom f.2
+  let bank2 ← payOut bank1 (now / nsPerSec) blocked r st.denom f.1
+  pure ({ str := setStream x r s { st with deposit := c.2, last := now }, bank := bank2 },
+        { pay := f.1, fee := f.2, total := c.1, rem := c.2 })
+
+/-- claim first when the stream still holds a deposit; returns the refreshed stream -/
+def settleIfFunded (x : SB) (now : Int) (blocked : Addr → Bool) (r s : Addr) (st : Stream) : M (SB × Stream) :=
+  if st.deposit > 0 then do
+    let y ← claimFromStream x now blocked r s
+    pure (y.1, (AL.find? y.1.str.streams (r, s)).getD st)
+  else .ok (x, st)
 
 /-- `AddDeposit` -/
 def addDeposit (x : SB) (now : Int) (blocked : Addr → Bool) (r s : Addr) (denom : String) (amt : Int) : M SB := do
-  let nowSec := now / nsPerSec
-  match AL.find? x.str.streams (r, s) with
-  | none => throw eStrNotExist
-  | some st =>
-    if denom ≠ st.denom then throw eStrInvalidData
-    let durationExtension := calcDuration amt st.rate
-    let mut x := x
-    let mut st := st
-    let mut zt : Int := 0
-    if st.zero ≤ now then
-      if st.deposit > 0 then
-        let (x', _) ← claimFromStream x now blocked r s
-        x := x'
-        st := (AL.find? x.str.streams (r, s)).getD st
-      st := { st with last := now }
-      zt := addSeconds now durationExtension
-    else
-      zt := addSeconds st.zero durationExtension
-    let bank ← x.bank.sendCoins nowSec s Mstr (Coins.ofCoin { denom := denom, amt := amt })
-    if durationExtension > maxDurationSeconds then throw eStrInvalidData
-    let st' := { st with deposit := st.deposit + amt, zero := zt }
-    pure { str := { x.str with streams := AL.insert x.str.streams (r, s) st' }, bank := bank }
+  let st ← findStream x r s eStrNotExist
+  require (denom = st.denom) eStrInvalidData
+  let ext := calcDuration amt st.rate
+  -- expired (or new) streams are settled and restart from now; running ones are extended
+  let y ← (if st.zero ≤ now then do
+      let z ← settleIfFunded x now blocked r s st
+      pure (z.1, { z.2 with last := now }, addSeconds now ext)
+    else (.ok (x, st, addSeconds st.zero ext) : M (SB × Stream × Int)))
+  let bank ← y.1.bank.sendCoins (now / nsPerSec) s Mstr (Coins.ofCoin { denom := denom, amt := amt })
+  require (ext ≤ maxDurationSeconds) eStrInvalidData
+  pure { str := setStream y.1 r s { y.2.1 with deposit := y.2.1.deposit + amt, zero := y.2.2 }, bank := bank }
 
 /-- `SetNewFlowRate` -/
 def setNewFlowRate (x : SB) (now : Int) (blocked : Addr → Bool) (r s : Addr) (newRate : Int) : M SB := do
-  match AL.find? x.str.streams (r, s) with
-  | none => throw eStrNotExist
-  | some st =>
-    let mut x := x
-    let mut st := st
-    let mut zt : Int := now
-    if st.deposit > 0 then
-      let (x', _) ← claimFromStream x now blocked r s
-      x := x'
-      st := (AL.find? x.str.streams (r, s)).getD st
-      let duration := calcDuration st.deposit newRate
-      if duration > maxDurationSeconds then throw eStrInvalidData
-      zt := addSeconds now duration
-    let st' := { st with rate := newRate, zero := zt }
-    pure { x with str := { x.str with streams := AL.insert x.str.streams (r, s) st' } }
+  let st ← findStream x r s eStrNotExist
+  if st.deposit > 0 then do
+    let z ← settleIfFunded x now blocked r s st
+    let duration := calcDuration z.2.deposit newRate
+    require (duration ≤ maxDurationSeconds) eStrInvalidData
+    pure { z.1 with str := setStream z.1 r s { z.2 with rate := newRate, zero := addSeconds now duration } }
+  else
+    pure { x with str := setStream x r s { st with rate := newRate, zero := now } }
 
 /-- `CancelStreamBySenderReceiver` -/
 def cancelStream (x : SB) (now : Int) (blocked : Addr → Bool) (r s : Addr) : M SB := do
-  let nowSec := now / nsPerSec
-  match AL.find? x.str.streams (r, s) with
-  | none => throw eStrNotExist
-  | some st =>
-    if !st.cancellable then throw eStrNotCancellable
-    let mut x := x
-    let mut st := st
-    if st.deposit > 0 then
-      let (x', _) ← claimFromStream x now blocked r s
-      x := x'
-      st := (AL.find? x.str.streams (r, s)).getD st
-    let mut bank := x.bank
-    if st.deposit > 0 then
-      if blocked s then throw eUnauthorized
-      bank ← bank.sendCoins nowSec Mstr s [{ denom := st.denom, amt := st.deposit }]
-    pure { str := { x.str with streams := AL.erase x.str.streams (r, s) }, bank := bank }
+  let st ← findStream x r s eStrNotExist
+  require st.cancellable eStrNotCancellable
+  let z ← settleIfFunded x now blocked r s st
+  let bank ← payOut z.1.bank (now / nsPerSec) blocked s z.2.denom z.2.deposit
+  pure { str := { z.1.str with streams := AL.erase z.1.str.streams (r, s) }, bank := bank }
 
 /-- `Coin.IsNil || IsNegative || IsZero` for a message coin (never nil here) -/
 def coinNotPositive (amt : Int) : Bool := decide (amt ≤ 0)
 
 /-- `ValidateBasic` of MsgCreateStream -/
 def vbCreateStream (rT sT : AddrTok) (denom : String) (amt rate : Int) : M Unit := do
-  if sT.decode.isNone then throw eInvalidAddress
-  if rT.decode.isNone then throw eInvalidAddress
-  if coinNotPositive amt then throw eStrInvalidData
-  if rate < 1 then throw eStrInvalidData
-  if sT = rT then throw eStrInvalidData
+  let _ ← sT.decodeM
+  let _ ← rT.decodeM
   let _ := denom
-  if calcDuration amt rate < 60 then throw eStrInvalidData
+  require (!coinNotPositive amt) eStrInvalidData
+  require (1 ≤ rate) eStrInvalidData
+  require (sT ≠ rT) eStrInvalidData
+  require (60 ≤ calcDuration amt rate) eStrInvalidData
 
 /-- message server `CreateStream` -/
 def createStream (x : SB) (now : Int) (blocked : Addr → Bool) (rT sT : AddrTok) (denom : String) (amt rate : Int) : M SB := do
-  let s ← match sT.decode with | some a => pure a | none => throw eInvalidAddress
-  let r ← match rT.decode with | some a => pure a | none => throw eInvalidAddress
-  if blocked r then throw eUnauthorized
-  if sT = rT then throw eStrInvalidData
-  if AL.contains x.str.streams (r, s) then throw eStrExists
-  if coinNotPositive amt then throw eStrInvalidData
-  if rate ≤ 0 then throw eStrInvalidData
-  if calcDuration amt rate < 60 then throw eStrInvalidData
+  let s ← sT.decodeM
+  let r ← rT.decodeM
+  require (!blocked r) eUnauthorized
+  require (sT ≠ rT) eStrInvalidData
+  require (!AL.contains x.str.streams (r, s)) eStrExists
+  require (!coinNotPositive amt) eStrInvalidData
+  require (0 < rate) eStrInvalidData
+  require (60 ≤ calcDuration amt rate) eStrInvalidData
   -- CreateNewStream
   let st : Stream := { denom := denom, deposit := 0, rate := rate, last := now, zero := 0, cancellable := true }
-  let x1 : SB := { x with str := { x.str with streams := AL.insert x.str.streams (r, s) st } }
-  addDeposit x1 now blocked r s denom amt
+  addDeposit { x with str := setStream x r s st } now blocked r s denom amt
 
 /-- message server `ClaimStream` -/
 def claimStream (x : SB) (now : Int) (blocked : Addr → Bool) (rT sT : AddrTok) : M (SB × ClaimOut) := do
-  let s ← match sT.decode with | some a => pure a | none => throw eInvalidAddress
-  let r ← match rT.decode with | some a => pure a | none => throw eInvalidAddress
-  if !AL.contains x.str.streams (r, s) then throw eStrInvalidData
+  let s ← sT.decodeM
+  let r ← rT.decodeM
+  require (AL.contains x.str.streams (r, s)) eStrInvalidData
   claimFromStream x now blocked r s
 
 /-- message server `TopUpDeposit`; returns (CurrentDeposit, DepositZeroTime) -/
 def topUpDeposit (x : SB) (now : Int) (blocked : Addr → Bool) (rT sT : AddrTok) (denom : String) (amt : Int) :
     M (SB × Int × Int) := do
-  let s ← match sT.decode with | some a => pure a | none => throw eInvalidAddress
-  let r ← match rT.decode with | some a => pure a | none => throw eInvalidAddress
-  if coinNotPositive amt then throw eStrInvalidData
-  match AL.find? x.str.streams (r, s) with
-  | none => throw eStrInvalidData
-  | some st =>
-    if denom ≠ st.denom then throw eStrInvalidData
-    let x' ← addDeposit x now blocked r s denom amt
-    let st' := (AL.find? x'.str.streams (r, s)).getD st
-    pure (x', st'.deposit, st'.zero)
+  let s ← sT.decodeM
+  let r ← rT.decodeM
+  require (!coinNotPositive amt) eStrInvalidData
+  let st ← findStream x r s eStrInvalidData
+  require (denom = st.denom) eStrInvalidData
+  let x' ← addDeposit x now blocked r s denom amt
+  let st' := (AL.find? x'.str.streams (r, s)).getD st
+  pure (x', st'.deposit, st'.zero)
 
 /-- message server `UpdateFlowRate` -/
 def updateFlowRate (x : SB) (now : Int) (blocked : Addr → Bool) (rT sT : AddrTok) (rate : Int) : M SB := do
-  let s ← match sT.decode with | some a => pure a | none => throw eInvalidAddress
-  let r ← match rT.decode with | some a => pure a | none => throw eInvalidAddress
-  if rate ≤ 0 then throw eStrInvalidData
-  if !AL.contains x.str.streams (r, s) then throw eStrInvalidData
+  let s ← sT.decodeM
+  let r ← rT.decodeM
+  require (0 < rate) eStrInvalidData
+  require (AL.contains x.str.streams (r, s)) eStrInvalidData
   setNewFlowRate x now blocked r s rate
 
 /-- message server `CancelStream` -/
 def cancelStreamMsg (x : SB) (now : Int) (blocked : Addr → Bool) (rT sT : AddrTok) : M SB := do
-  let s ← match sT.decode with | some a => pure a | none => throw eInvalidAddress
-  let r ← match rT.decode with | some a => pure a | none => throw eInvalidAddress
-  match AL.find? x.str.streams (r, s) with
-  | none => throw eStrInvalidData
-  | some st =>
-    if !st.cancellable then throw eStrNotCancellable
-    cancelStream x now blocked r s
+  let s ← sT.decodeM
+  let r ← rT.decodeM
+  let st ← findStream x r s eStrInvalidData
+  require st.cancellable eStrNotCancellable
+  cancelStream x now blocked r s
 
 /-- stream `Params.Validate` : 0 ≤ fee ≤ 1 -/
 def streamParamsValid (fee : Dec18) : Bool := decide (0 ≤ fee) && decide (fee ≤ (pow18 : Int))
